@@ -1,6 +1,716 @@
-//! C09 (stub)
+//! C09 — modular exponentiation, multi-exponentiation and linear combination are exact.
+//!
+//! Oracle: `BigUint::modpow` on `exponent mod 2^k`, products and sums mod m. Every result is
+//! observed through `retrieve()` (the value) and `to_montgomery()` (canonical form: `v * R mod m`).
+//! `exponent_bits` stays inside the property's domain `0 <= k <= BITS(exponent)` (a larger k indexes
+//! past the exponent's limbs; the documentation calls k "the number of least significant bits to
+//! take into account").
+//!
+//! m = 1 (admissible: `Odd::new(1)`) has cases of its own, as in C08: the canonical residue of
+//! `base^0 = 1` modulo 1 is 0.
+
+use super::c08::{ModBig1024, ModLz2, ModLz5, ModM64, ModM127, ModP256, ModSmall192, ModThree, moduli_gt1};
 use super::prelude::*;
+use crypto_bigint::modular::{BoxedMontyForm, BoxedMontyParams, ConstMontyForm, ConstMontyParams, MontyForm, MontyParams};
+use crypto_bigint::{Monty, MultiExponentiate, MultiExponentiateBoundedExp, Pow, PowBoundedExp};
+
+// ---------------------------------------------------------------- the two fixed-width representations
+
+/// `(retrieve, to_montgomery)`
+type Obs = (BigUint, BigUint);
+
+fn want(v: &BigUint, m: &BigUint, r: &BigUint) -> Obs {
+    (v.clone(), v * r % m)
+}
+
+pub trait PowForm: Copy {
+    type Ctxp: Copy;
+    const LIMBS: usize;
+    fn fixed() -> Option<BigUint> {
+        None
+    }
+    fn ctx(m: &BigUint) -> Self::Ctxp;
+    fn mk(v: &BigUint, p: &Self::Ctxp) -> Self;
+    fn obs(&self) -> Obs;
+}
+
+/// inherent `pow` / `pow_bounded_exp` (generic over the exponent width)
+pub trait PowInh<const E: usize>: PowForm {
+    fn pow_i(&self, e: &Uint<E>) -> Self;
+    fn pow_bounded_i(&self, e: &Uint<E>, k: u32) -> Self;
+}
+
+impl<const L: usize> PowForm for MontyForm<L> {
+    type Ctxp = MontyParams<L>;
+    const LIMBS: usize = L;
+    fn ctx(m: &BigUint) -> Self::Ctxp {
+        MontyParams::<L>::new_vartime(oddu::<L>(m))
+    }
+    fn mk(v: &BigUint, p: &Self::Ctxp) -> Self {
+        MontyForm::<L>::new(&bu::<L>(v), *p)
+    }
+    fn obs(&self) -> Obs {
+        (ub(&self.retrieve()), ub(&self.to_montgomery()))
+    }
+}
+impl<const L: usize, const E: usize> PowInh<E> for MontyForm<L> {
+    fn pow_i(&self, e: &Uint<E>) -> Self {
+        MontyForm::<L>::pow(self, e)
+    }
+    fn pow_bounded_i(&self, e: &Uint<E>, k: u32) -> Self {
+        MontyForm::<L>::pow_bounded_exp(self, e, k)
+    }
+}
+
+impl<P: ConstMontyParams<L>, const L: usize> PowForm for ConstMontyForm<P, L> {
+    type Ctxp = ();
+    const LIMBS: usize = L;
+    fn fixed() -> Option<BigUint> {
+        Some(ub(P::MODULUS.as_ref()))
+    }
+    fn ctx(_m: &BigUint) -> Self::Ctxp {}
+    fn mk(v: &BigUint, _p: &Self::Ctxp) -> Self {
+        Self::new(&bu::<L>(v))
+    }
+    fn obs(&self) -> Obs {
+        (ub(&self.retrieve()), ub(&self.to_montgomery()))
+    }
+}
+impl<P: ConstMontyParams<L>, const L: usize, const E: usize> PowInh<E> for ConstMontyForm<P, L> {
+    fn pow_i(&self, e: &Uint<E>) -> Self {
+        ConstMontyForm::<P, L>::pow(self, e)
+    }
+    fn pow_bounded_i(&self, e: &Uint<E>, k: u32) -> Self {
+        ConstMontyForm::<P, L>::pow_bounded_exp(self, e, k)
+    }
+}
+
+// ---------------------------------------------------------------- corpora and budgets
+
+/// Rough cost in microseconds of one crate exponentiation plus its oracle.
+fn pow_cost(limbs: usize, exp_bits: u32) -> usize {
+    let mul = 3 + 2 * limbs * limbs; // ~ns * 10 of a Montgomery multiplication
+    (exp_bits as usize * mul) / 400 + 2
+}
+
+/// How many (modulus, base, exponent) combinations a case may try: `(moduli, bases, exponents)`.
+fn plan(c: &Ctx, cost_us: usize, per_triple: usize) -> (usize, usize, usize) {
+    let budget_us = (c.iters + c.cap / 4) * 150;
+    let total = (budget_us / (cost_us * per_triple.max(1))).clamp(8, 6000);
+    let nb = if total >= 600 { 8 } else if total >= 60 { 5 } else { 3 };
+    let ne = (total / (nb * 6)).clamp(3, 40);
+    let nm = (total / (nb * ne)).clamp(2, 24);
+    (nm, nb, ne)
+}
+
+fn moduli_of<F: PowForm>(c: &mut Ctx, n: usize) -> Vec<BigUint> {
+    match F::fixed() {
+        Some(m) => vec![m],
+        None => spread_moduli(c, F::LIMBS, n),
+    }
+}
+
+/// `n` odd moduli > 1 of a width: 3, MAX, 2^(BITS-1)+1, MAX/3, MAX/4, a modulus with zero high
+/// limbs first; then a random spread of the C08 corpus and top-bit-set random moduli.
+fn spread_moduli(c: &mut Ctx, limbs: usize, n: usize) -> Vec<BigUint> {
+    let all = moduli_gt1(c, limbs, 40);
+    let head = [1usize, 3, 6, 9, 10, 14, 2, 0];
+    let mut v: Vec<BigUint> = head.iter().filter(|&&i| i < all.len()).map(|&i| all[i].clone()).collect();
+    while v.len() < n {
+        let i = c.below(all.len());
+        if !v.contains(&all[i]) {
+            v.push(all[i].clone());
+        } else {
+            v.push(c.rnd(limbs) | pow2(64 * limbs as u32 - 1) | BigUint::one());
+        }
+    }
+    v.truncate(n);
+    v
+}
+
+/// Bases: 0, 1, m-1, 2, m-2, (m+1)/2, random.
+fn bases(c: &mut Ctx, m: &BigUint, n: usize) -> Vec<BigUint> {
+    let mut v = vec![BigUint::zero(), BigUint::one() % m, m - 1u32, BigUint::from(2u8) % m];
+    v.truncate(n);
+    while v.len() < n {
+        v.push(match v.len() {
+            5 => (m - 1u32) - (BigUint::one() % m),
+            6 => ((m + 1u32) >> 1) % m,
+            _ => c.rnd_below(m),
+        });
+    }
+    v
+}
+
+/// Exponents of a width: 0, 1, all-ones, 2^(bits-1), 2, 3, 2^bits - 2, limb and window boundary
+/// powers of two, m - 1, random.
+fn exponents(c: &mut Ctx, e_limbs: usize, m: &BigUint, n: usize) -> Vec<BigUint> {
+    let bits = 64 * e_limbs as u32;
+    let max = mask(bits);
+    let mut v = vec![BigUint::zero(), BigUint::one(), max.clone(), pow2(bits - 1), BigUint::from(2u8), BigUint::from(3u8), &max - 1u32];
+    let js = [63u32, 64, 4, 3, 65, 127, 128, 60, 15, 16];
+    for j in js {
+        if j < bits {
+            v.push(pow2(j));
+        }
+    }
+    v.push((m - 1u32) & &max);
+    v.push(BigUint::from(0xfu8));
+    v.push(BigUint::from(0x10u8));
+    v.push(BigUint::from(0x11u8));
+    v.truncate(n.max(4));
+    while v.len() < n {
+        v.push(match c.below(4) {
+            0 => pow2(c.below(bits as usize) as u32),
+            1 => mask(1 + c.below(bits as usize) as u32),
+            _ => c.rnd(e_limbs),
+        });
+    }
+    v
+}
+
+/// Bit bounds for an exponent of `bits` bits: the property's list, the ends, window / limb
+/// boundaries and a handful of random ones; everything for `exhaustive`.
+fn bit_bounds(c: &mut Ctx, bits: u32, exhaustive: bool, n: usize) -> Vec<u32> {
+    if exhaustive {
+        return (0..=bits).collect();
+    }
+    let mut v: Vec<u32> = Vec::new();
+    for k in [0u32, 1, 4, 63, 64, 65, 127, 128, bits, bits - 1, 2, 3, 5, 8, 60, 61, 62, 66, 67, 68, 129, 191, 192, 193, 255, 256, 257, 512, 1023] {
+        if k <= bits && !v.contains(&k) {
+            v.push(k);
+        }
+    }
+    v.truncate(n.max(10));
+    for _ in 0..4 {
+        v.push(c.below(bits as usize + 1) as u32);
+    }
+    v
+}
+
+fn reduce_exp(e: &BigUint, k: u32) -> BigUint {
+    e & mask(k)
+}
+
+// ---------------------------------------------------------------- pow / Pow
+
+fn pow_case<F, const E: usize>(c: &mut Ctx)
+where
+    F: PowInh<E> + Pow<Uint<E>> + PowBoundedExp<Uint<E>>,
+{
+    let limbs = F::LIMBS;
+    let ebits = 64 * E as u32;
+    let (nm, nb, ne) = plan(c, pow_cost(limbs, ebits), 3);
+    for m in moduli_of::<F>(c, nm) {
+        let r = pow2(64 * limbs as u32) % &m;
+        let Ok(p) = call(|| F::ctx(&m)) else { continue };
+        for b in bases(c, &m, nb) {
+            let x = F::mk(&b, &p);
+            for e in exponents(c, E, &m, ne) {
+                if c.done() {
+                    return;
+                }
+                let ex = bu::<E>(&e);
+                let exp = want(&b.modpow(&e, &m), &m, &r);
+                check!(c, call(|| x.pow_i(&ex).obs()), exp.clone(); m, b, e);
+                check!(c, call(|| Pow::pow(&x, &ex).obs()), exp.clone(); m, b, e);
+                check!(c, call(|| x.pow_bounded_i(&ex, ebits).obs()), exp; m, b, e);
+            }
+        }
+    }
+}
+
+// ---------------------------------------------------------------- pow_bounded_exp / PowBoundedExp
+
+fn pow_bounded_case<F, const E: usize>(c: &mut Ctx)
+where
+    F: PowInh<E> + PowBoundedExp<Uint<E>>,
+{
+    let limbs = F::LIMBS;
+    let ebits = 64 * E as u32;
+    let exhaustive = E <= 2 && limbs <= 4;
+    let nk = if exhaustive { ebits as usize + 1 } else { 28 };
+    // the average bounded exponentiation costs half of a full one
+    let (nm, nb, ne) = plan(c, pow_cost(limbs, ebits / 2 + 8), 2 * nk);
+    for m in moduli_of::<F>(c, nm) {
+        let r = pow2(64 * limbs as u32) % &m;
+        let Ok(p) = call(|| F::ctx(&m)) else { continue };
+        for b in bases(c, &m, nb) {
+            let x = F::mk(&b, &p);
+            for e in exponents(c, E, &m, ne) {
+                let ex = bu::<E>(&e);
+                for k in bit_bounds(c, ebits, exhaustive, nk - 4) {
+                    if c.done() {
+                        return;
+                    }
+                    let exp = want(&b.modpow(&reduce_exp(&e, k), &m), &m, &r);
+                    check!(c, call(|| x.pow_bounded_i(&ex, k).obs()), exp.clone(); m, b, e, k);
+                    check!(c, call(|| PowBoundedExp::pow_bounded_exp(&x, &ex, k).obs()), exp; m, b, e, k);
+                }
+            }
+        }
+    }
+}
+
+/// m = 1: every power is the residue 0, stored as 0.
+fn pow_m1<const L: usize>(c: &mut Ctx) {
+    let m = BigUint::one();
+    let r = BigUint::zero();
+    let p = MontyParams::<L>::new_vartime(oddu::<L>(&m));
+    for b in [0u32, 1, 5] {
+        let b = BigUint::from(b);
+        let x = MontyForm::<L>::new(&bu::<L>(&b), p);
+        for e in [0u32, 1, 2, 0x35] {
+            let e = BigUint::from(e);
+            let ex = bu::<1>(&e);
+            for k in [0u32, 1, 4, 5, 64] {
+                let exp = want(&BigUint::zero(), &m, &r);
+                check!(c, call(|| x.pow_bounded_exp(&ex, k).obs()), exp; m, b, e, k);
+            }
+        }
+    }
+}
+
+fn boxed_pow_m1(c: &mut Ctx) {
+    let m = BigUint::one();
+    for limbs in 1..=2usize {
+        let p = BoxedMontyParams::new(oddx(&m, limbs));
+        for b in [0u32, 5] {
+            let b = BigUint::from(b);
+            let x = BoxedMontyForm::new(bx(&b, limbs), p.clone());
+            for (e, k) in [(0u32, 0u32), (1, 1), (5, 4), (5, 64)] {
+                let e = BigUint::from(e);
+                let ex = bx(&e, 1);
+                let exp = (BigUint::zero(), BigUint::zero());
+                check!(c, call(|| { let y = x.pow_bounded_exp(&ex, k); (xb(&y.retrieve()), xb(&y.to_montgomery())) }), exp; m, limbs, b, e, k);
+            }
+        }
+    }
+}
+
+// ---------------------------------------------------------------- boxed pow
+
+fn boxed_obs(x: &BoxedMontyForm) -> (BigUint, BigUint, usize) {
+    let r = x.retrieve();
+    (xb(&r), xb(&x.to_montgomery()), r.nlimbs())
+}
+
+/// `BoxedMontyForm::pow` / `pow_bounded_exp` / `PowBoundedExp`, modulus of 1..=4 limbs, exponent of
+/// 1..=4 limbs (any precision is allowed for the exponent).
+fn boxed_pow(c: &mut Ctx) {
+    for limbs in 1..=4usize {
+        for elimbs in 1..=4usize {
+            let ebits = 64 * elimbs as u32;
+            let (nm, nb, ne) = c.scaled(16, |c| plan(c, pow_cost(limbs, ebits) * 2, 9));
+            for m in spread_moduli(c, limbs, nm) {
+                let r = pow2(64 * limbs as u32) % &m;
+                let Ok(p) = call(|| BoxedMontyParams::new(oddx(&m, limbs))) else { continue };
+                for b in bases(c, &m, nb) {
+                    let x = BoxedMontyForm::new(bx(&b, limbs), p.clone());
+                    for e in exponents(c, elimbs, &m, ne) {
+                        if c.done() {
+                            return;
+                        }
+                        let ex = bx(&e, elimbs);
+                        let v = b.modpow(&e, &m);
+                        let exp = (v.clone(), &v * &r % &m, limbs);
+                        check!(c, call(|| boxed_obs(&x.pow(&ex))), exp.clone(); m, limbs, b, e, elimbs);
+                        check!(c, call(|| boxed_obs(&x.pow_bounded_exp(&ex, ebits))), exp; m, limbs, b, e, elimbs);
+                        for k in bit_bounds(c, ebits, false, 3) {
+                            let v = b.modpow(&reduce_exp(&e, k), &m);
+                            let exp = (v.clone(), &v * &r % &m, limbs);
+                            if c.below(2) == 0 {
+                                check!(c, call(|| boxed_obs(&x.pow_bounded_exp(&ex, k))), exp; m, limbs, b, e, elimbs, k);
+                            } else {
+                                check!(c, call(|| boxed_obs(&PowBoundedExp::pow_bounded_exp(&x, &ex, k))), exp; m, limbs, b, e, elimbs, k);
+                            }
+                        }
+                    }
+                }
+            }
+        }
+    }
+}
+
+/// wider precisions (the quantifier names 1..=17 limbs) on a small budget
+fn boxed_pow_wide(c: &mut Ctx) {
+    for limbs in [5usize, 8, 17] {
+        for elimbs in [1usize, limbs] {
+            let ebits = 64 * elimbs as u32;
+            let (nm, nb, ne) = c.scaled(8, |c| plan(c, pow_cost(limbs, ebits) * 2, 5));
+            for m in spread_moduli(c, limbs, nm) {
+                let r = pow2(64 * limbs as u32) % &m;
+                let Ok(p) = call(|| BoxedMontyParams::new(oddx(&m, limbs))) else { continue };
+                for b in bases(c, &m, nb) {
+                    let x = BoxedMontyForm::new(bx(&b, limbs), p.clone());
+                    for e in exponents(c, elimbs, &m, ne) {
+                        if c.done() {
+                            return;
+                        }
+                        let ex = bx(&e, elimbs);
+                        let v = b.modpow(&e, &m);
+                        check!(c, call(|| boxed_obs(&x.pow(&ex))), (v.clone(), &v * &r % &m, limbs); m, limbs, b, e, elimbs);
+                        for k in bit_bounds(c, ebits, false, 0).into_iter().rev().take(4) {
+                            let v = b.modpow(&reduce_exp(&e, k), &m);
+                            check!(c, call(|| boxed_obs(&x.pow_bounded_exp(&ex, k))), (v.clone(), &v * &r % &m, limbs); m, limbs, b, e, elimbs, k);
+                        }
+                    }
+                }
+            }
+        }
+    }
+}
+
+/// every k for one- and two-limb exponents
+fn boxed_pow_bounded_exhaustive(c: &mut Ctx) {
+    for limbs in 1..=4usize {
+        for elimbs in 1..=2usize {
+            let ebits = 64 * elimbs as u32;
+            let (nm, nb, ne) = c.scaled(8, |c| plan(c, pow_cost(limbs, ebits / 2 + 8) * 2, ebits as usize + 1));
+            for m in spread_moduli(c, limbs, nm) {
+                let r = pow2(64 * limbs as u32) % &m;
+                let Ok(p) = call(|| BoxedMontyParams::new_vartime(oddx(&m, limbs))) else { continue };
+                for b in bases(c, &m, nb) {
+                    let x = BoxedMontyForm::new(bx(&b, limbs), p.clone());
+                    for e in exponents(c, elimbs, &m, ne) {
+                        let ex = bx(&e, elimbs);
+                        for k in 0..=ebits {
+                            if c.done() {
+                                return;
+                            }
+                            let v = b.modpow(&reduce_exp(&e, k), &m);
+                            let exp = (v.clone(), &v * &r % &m, limbs);
+                            check!(c, call(|| boxed_obs(&x.pow_bounded_exp(&ex, k))), exp; m, limbs, b, e, elimbs, k);
+                        }
+                    }
+                }
+            }
+        }
+    }
+}
+
+// ---------------------------------------------------------------- multi-exponentiation
+
+/// Arrays `[(base, exponent); N]` and slices of the same length, full and bounded.
+fn multi_exp_n<F, const E: usize, const N: usize>(c: &mut Ctx, rounds: usize)
+where
+    F: PowForm
+        + Pow<Uint<E>>
+        + MultiExponentiate<Uint<E>, [(F, Uint<E>); N]>
+        + MultiExponentiateBoundedExp<Uint<E>, [(F, Uint<E>); N]>
+        + MultiExponentiate<Uint<E>, [(F, Uint<E>)]>
+        + MultiExponentiateBoundedExp<Uint<E>, [(F, Uint<E>)]>,
+{
+    let limbs = F::LIMBS;
+    let ebits = 64 * E as u32;
+    let terms = N;
+    let ms = moduli_of::<F>(c, rounds.clamp(2, 12));
+    for round in 0..rounds {
+        if c.done() {
+            return;
+        }
+        let m = ms[round % ms.len()].clone();
+        let r = pow2(64 * limbs as u32) % &m;
+        let Ok(p) = call(|| F::ctx(&m)) else { continue };
+        let bs_pool = bases(c, &m, 8);
+        let es_pool = exponents(c, E, &m, 24);
+        // round 0..: first all-special, then mixed
+        let bs: Vec<BigUint> = (0..N).map(|i| if round < 8 { bs_pool[(round + i) % bs_pool.len()].clone() } else { c.rnd_below(&m) }).collect();
+        let es: Vec<BigUint> = (0..N).map(|i| if round % 2 == 0 { es_pool[(round / 2 + 3 * i) % es_pool.len()].clone() } else { c.rnd(E) }).collect();
+        let zero = (F::mk(&BigUint::zero(), &p), Uint::<E>::ZERO);
+        let mut arr = [zero; N];
+        for i in 0..N {
+            arr[i] = (F::mk(&bs[i], &p), bu::<E>(&es[i]));
+        }
+        let slice: &[(F, Uint<E>)] = &arr[..];
+        let product = |k: u32| {
+            let mut acc = BigUint::one() % &m;
+            for i in 0..N {
+                acc = acc * bs[i].modpow(&reduce_exp(&es[i], k), &m) % &m;
+            }
+            acc
+        };
+        let full = want(&product(ebits), &m, &r);
+        check!(c, call(|| <F as MultiExponentiate<Uint<E>, [(F, Uint<E>); N]>>::multi_exponentiate(&arr).obs()), full.clone(); m, bs, es, terms);
+        check!(c, call(|| <F as MultiExponentiate<Uint<E>, [(F, Uint<E>)]>>::multi_exponentiate(slice).obs()), full; m, bs, es, terms);
+        for k in bit_bounds(c, ebits, false, 0).into_iter().take(if round % 4 == 0 { 14 } else { 4 }) {
+            let exp = want(&product(k), &m, &r);
+            check!(c, call(|| <F as MultiExponentiateBoundedExp<Uint<E>, [(F, Uint<E>); N]>>::multi_exponentiate_bounded_exp(&arr, k).obs()), exp.clone(); m, bs, es, terms, k);
+            check!(c, call(|| <F as MultiExponentiateBoundedExp<Uint<E>, [(F, Uint<E>)]>>::multi_exponentiate_bounded_exp(slice, k).obs()), exp; m, bs, es, terms, k);
+        }
+    }
+}
+
+macro_rules! multi_exp_case {
+    ($name:ident, $F:ty, $l:expr) => {
+        fn $name<const E: usize>(c: &mut Ctx) {
+            let cost = pow_cost($l, 64 * E as u32) * 14;
+            let rounds = (((c.iters + c.cap / 4) * 40) / cost).clamp(4, 160);
+            multi_exp_n::<$F, E, 1>(c, rounds);
+            multi_exp_n::<$F, E, 2>(c, rounds);
+            multi_exp_n::<$F, E, 3>(c, rounds / 2 + 2);
+            multi_exp_n::<$F, E, 5>(c, rounds / 3 + 2);
+        }
+    };
+}
+multi_exp_case!(multi_exp_1, MontyForm<1>, 1);
+multi_exp_case!(multi_exp_2, MontyForm<2>, 2);
+multi_exp_case!(multi_exp_4, MontyForm<4>, 4);
+multi_exp_case!(multi_exp_16, MontyForm<16>, 16);
+multi_exp_case!(multi_exp_p256, ConstMontyForm<ModP256, 4>, 4);
+multi_exp_case!(multi_exp_m64, ConstMontyForm<ModM64, 1>, 1);
+multi_exp_case!(multi_exp_m127, ConstMontyForm<ModM127, 2>, 2);
+multi_exp_case!(multi_exp_small192, ConstMontyForm<ModSmall192, 3>, 3);
+
+// ---------------------------------------------------------------- linear combinations
+
+/// Moduli with a chosen number of leading zero bits: the accumulation window holds
+/// `2^min(leading zeros, 63)` products, so 0..=5 leading zeros give windows of 1..=32 < 40 terms.
+fn lincomb_moduli(c: &mut Ctx, limbs: usize) -> Vec<BigUint> {
+    let bits = 64 * limbs as u32;
+    let mut v = Vec::new();
+    for lz in [0u32, 1, 2, 3, 4, 5, 6, 7, 62, 63, 64, 65, 127, 128, 200] {
+        if lz + 2 > bits {
+            continue;
+        }
+        v.push(mask(bits - lz)); // largest
+        v.push(pow2(bits - lz - 1) + 1u32); // smallest
+        v.push((c.rnd(limbs) >> lz as usize) | pow2(bits - lz - 1) | BigUint::one());
+    }
+    v.push(BigUint::from(3u8));
+    v.push(mask(bits) / 3u32 | BigUint::one());
+    v.retain(|m| m > &BigUint::one());
+    v
+}
+
+/// Term lists: all (m-1, m-1) (largest accumulator), random, sparse specials.
+fn lincomb_terms(c: &mut Ctx, m: &BigUint, n: usize, pattern: usize) -> Vec<(BigUint, BigUint)> {
+    (0..n)
+        .map(|i| match pattern {
+            0 => (m - 1u32, m - 1u32),
+            1 => (c.rnd_below(m), c.rnd_below(m)),
+            2 => {
+                if i % 2 == 0 { (m - 1u32, m - 1u32) } else { (m - 1u32, BigUint::one() % m) }
+            }
+            _ => {
+                let pool = [BigUint::zero(), BigUint::one() % m, m - 1u32, m >> 1, ((m + 1u32) >> 1) % m];
+                (pool[c.below(5)].clone(), if c.coin() { c.rnd_below(m) } else { pool[c.below(5)].clone() })
+            }
+        })
+        .collect()
+}
+
+fn sum_of_products(ts: &[(BigUint, BigUint)], m: &BigUint) -> BigUint {
+    let mut acc = BigUint::zero();
+    for (a, b) in ts {
+        acc += a * b;
+    }
+    acc % m
+}
+
+/// which term counts a run covers: all of 1..=40 at the default budget
+fn term_counts(c: &mut Ctx, wide: bool) -> Vec<usize> {
+    if c.iters >= 1000 && !wide {
+        (1..=40).collect()
+    } else {
+        let mut v = vec![1usize, 2, 3, 4, 5, 8, 9, 16, 17, 32, 33, 40];
+        for _ in 0..4 {
+            v.push(1 + c.below(40));
+        }
+        v
+    }
+}
+
+fn lincomb_runtime<const L: usize>(c: &mut Ctx) {
+    let limbs = L;
+    let counts = term_counts(c, L > 4);
+    for m in lincomb_moduli(c, L) {
+        let r = pow2(64 * L as u32) % &m;
+        let Ok(p) = call(|| MontyParams::<L>::new_vartime(oddu::<L>(&m))) else { continue };
+        for &n in &counts {
+            for pattern in 0..4 {
+                if c.done() {
+                    return;
+                }
+                let ts = lincomb_terms(c, &m, n, pattern);
+                let forms: Vec<(MontyForm<L>, MontyForm<L>)> = ts.iter().map(|(a, b)| (MontyForm::new(&bu::<L>(a), p), MontyForm::new(&bu::<L>(b), p))).collect();
+                let refs: Vec<(&MontyForm<L>, &MontyForm<L>)> = forms.iter().map(|(a, b)| (a, b)).collect();
+                let exp = want(&sum_of_products(&ts, &m), &m, &r);
+                check!(c, call(|| MontyForm::<L>::lincomb_vartime(&refs).obs()), exp.clone(); m, limbs, n, ts);
+                check!(c, call(|| <MontyForm<L> as Monty>::lincomb_vartime(&refs).obs()), exp; m, limbs, n, ts);
+            }
+        }
+        // documented: panics if `products` is empty
+        let empty: Vec<(&MontyForm<L>, &MontyForm<L>)> = Vec::new();
+        must_panic!(c, call(|| MontyForm::<L>::lincomb_vartime(&empty).obs()); m, limbs);
+        must_panic!(c, call(|| <MontyForm<L> as Monty>::lincomb_vartime(&empty).obs()); m, limbs);
+    }
+}
+
+fn lincomb_boxed(c: &mut Ctx) {
+    lincomb_boxed_on(c, &[1, 2, 3, 4]);
+}
+
+fn lincomb_boxed_wide(c: &mut Ctx) {
+    c.scaled(8, |c| lincomb_boxed_on(c, &[5, 8, 17]));
+}
+
+fn lincomb_boxed_on(c: &mut Ctx, widths: &[usize]) {
+    for &limbs in widths {
+        let counts = if limbs > 4 { vec![1usize, 2, 5, 33, 40] } else { term_counts(c, false) };
+        let mut ms = lincomb_moduli(c, limbs);
+        if limbs > 4 {
+            // the all-ones moduli of every leading-zero class only
+            ms = ms.into_iter().step_by(3).collect();
+        }
+        for m in ms {
+            let r = pow2(64 * limbs as u32) % &m;
+            let Ok(p) = call(|| BoxedMontyParams::new(oddx(&m, limbs))) else { continue };
+            for &n in &counts {
+                for pattern in 0..4 {
+                    if c.done() {
+                        return;
+                    }
+                    let ts = lincomb_terms(c, &m, n, pattern);
+                    let forms: Vec<(BoxedMontyForm, BoxedMontyForm)> =
+                        ts.iter().map(|(a, b)| (BoxedMontyForm::new(bx(a, limbs), p.clone()), BoxedMontyForm::new(bx(b, limbs), p.clone()))).collect();
+                    let refs: Vec<(&BoxedMontyForm, &BoxedMontyForm)> = forms.iter().map(|(a, b)| (a, b)).collect();
+                    let v = sum_of_products(&ts, &m);
+                    let exp = (v.clone(), &v * &r % &m, limbs);
+                    check!(c, call(|| boxed_obs(&BoxedMontyForm::lincomb_vartime(&refs))), exp.clone(); m, limbs, n, ts);
+                    check!(c, call(|| boxed_obs(&<BoxedMontyForm as Monty>::lincomb_vartime(&refs))), exp; m, limbs, n, ts);
+                }
+            }
+            let empty: Vec<(&BoxedMontyForm, &BoxedMontyForm)> = Vec::new();
+            must_panic!(c, call(|| boxed_obs(&BoxedMontyForm::lincomb_vartime(&empty))); m, limbs);
+            must_panic!(c, call(|| boxed_obs(&<BoxedMontyForm as Monty>::lincomb_vartime(&empty))); m, limbs);
+        }
+    }
+}
+
+// ---------------------------------------------------------------- the three implementations on identical inputs
+
+/// For a compile-time modulus: pow, pow_bounded_exp and lincomb_vartime computed by the
+/// compile-time form, by the runtime form obtained through `From<&ConstMontyForm>`, and by the boxed
+/// form over `BoxedMontyParams::from_const_params`, each against the oracle (hence equal).
+fn three_routes<P: ConstMontyParams<L>, const L: usize>(c: &mut Ctx) {
+    let limbs = L;
+    let m = ub(P::MODULUS.as_ref());
+    let r = pow2(64 * L as u32) % &m;
+    let Ok(bp) = call(BoxedMontyParams::from_const_params::<L, P>) else {
+        let got: Result<(), String> = Err("BoxedMontyParams::from_const_params panicked".into());
+        no_panic!(c, got; m);
+        return;
+    };
+    let boxed = |x: &ConstMontyForm<P, L>| BoxedMontyForm::from_montgomery(BoxedUint::from(x.to_montgomery()), bp.clone());
+    // exponentiation
+    let (_, nb, ne) = plan(c, pow_cost(L, 64 * L as u32) * 3, 4);
+    for b in bases(c, &m, nb + 2) {
+        let x = ConstMontyForm::<P, L>::new(&bu::<L>(&b));
+        let xd = MontyForm::<L>::from(&x);
+        let xb_ = boxed(&x);
+        for e in exponents(c, L, &m, ne + 4) {
+            if c.done() {
+                return;
+            }
+            let ex = bu::<L>(&e);
+            let exb = bx(&e, L);
+            let v = b.modpow(&e, &m);
+            let exp = want(&v, &m, &r);
+            check!(c, call(|| x.pow(&ex).obs()), exp.clone(); m, b, e);
+            check!(c, call(|| xd.pow(&ex).obs()), exp.clone(); m, b, e);
+            check!(c, call(|| boxed_obs(&xb_.pow(&exb))), (exp.0.clone(), exp.1.clone(), limbs); m, b, e);
+            let k = c.below(64 * L + 1) as u32;
+            let v = b.modpow(&reduce_exp(&e, k), &m);
+            let exp = want(&v, &m, &r);
+            check!(c, call(|| x.pow_bounded_exp(&ex, k).obs()), exp.clone(); m, b, e, k);
+            check!(c, call(|| xd.pow_bounded_exp(&ex, k).obs()), exp.clone(); m, b, e, k);
+            check!(c, call(|| boxed_obs(&xb_.pow_bounded_exp(&exb, k))), (exp.0.clone(), exp.1.clone(), limbs); m, b, e, k);
+        }
+    }
+    // linear combination
+    for n in term_counts(c, L > 4) {
+        for pattern in 0..4 {
+            if c.done() {
+                return;
+            }
+            let ts = lincomb_terms(c, &m, n, pattern);
+            let cf: Vec<(ConstMontyForm<P, L>, ConstMontyForm<P, L>)> =
+                ts.iter().map(|(a, b)| (ConstMontyForm::new(&bu::<L>(a)), ConstMontyForm::new(&bu::<L>(b)))).collect();
+            let df: Vec<(MontyForm<L>, MontyForm<L>)> = cf.iter().map(|(a, b)| (MontyForm::from(a), MontyForm::from(b))).collect();
+            let dr: Vec<(&MontyForm<L>, &MontyForm<L>)> = df.iter().map(|(a, b)| (a, b)).collect();
+            let bf: Vec<(BoxedMontyForm, BoxedMontyForm)> = cf.iter().map(|(a, b)| (boxed(a), boxed(b))).collect();
+            let br: Vec<(&BoxedMontyForm, &BoxedMontyForm)> = bf.iter().map(|(a, b)| (a, b)).collect();
+            let v = sum_of_products(&ts, &m);
+            let exp = want(&v, &m, &r);
+            check!(c, call(|| ConstMontyForm::<P, L>::lincomb_vartime(&cf).obs()), exp.clone(); m, n, ts);
+            check!(c, call(|| MontyForm::<L>::lincomb_vartime(&dr).obs()), exp.clone(); m, n, ts);
+            check!(c, call(|| boxed_obs(&BoxedMontyForm::lincomb_vartime(&br))), (exp.0, exp.1, limbs); m, n, ts);
+        }
+    }
+}
+
+// ---------------------------------------------------------------- table
+
+macro_rules! pcase {
+    ($v:ident, $tname:expr, $what:expr, $f:ident, $F:ty, $e:literal) => {
+        $v.push(Case::new(format!("{}::{} (exponent U{})", $tname, $what, 64 * $e), $f::<$F, $e>));
+    };
+}
+
+macro_rules! runtime_pow_cases {
+    ($v:ident; $(($l:literal, $e:literal)),+) => {$(
+        pcase!($v, format!("MontyForm<{}>", $l), "pow/Pow::pow", pow_case, MontyForm<$l>, $e);
+        pcase!($v, format!("MontyForm<{}>", $l), "pow_bounded_exp/PowBoundedExp", pow_bounded_case, MontyForm<$l>, $e);
+    )+};
+}
+
+macro_rules! const_pow_cases {
+    ($v:ident; $(($name:ident, $l:literal, $e:literal)),+) => {$(
+        pcase!($v, format!("ConstMontyForm<{}, {}>", stringify!($name), $l), "pow/Pow::pow", pow_case, ConstMontyForm<$name, $l>, $e);
+        pcase!($v, format!("ConstMontyForm<{}, {}>", stringify!($name), $l), "pow_bounded_exp/PowBoundedExp", pow_bounded_case, ConstMontyForm<$name, $l>, $e);
+    )+};
+}
 
 pub fn cases() -> Vec<Case> {
-    Vec::new()
+    let mut v = Vec::new();
+    // (modulus limbs, exponent limbs): same width, narrower and wider exponents
+    runtime_pow_cases!(v; (1, 1), (2, 2), (4, 4), (1, 2), (2, 1), (1, 4), (4, 1), (4, 2), (2, 4), (4, 8), (8, 8), (8, 1), (16, 16), (16, 1), (16, 4), (1, 16));
+    const_pow_cases!(v; (ModP256, 4, 4), (ModP256, 4, 1), (ModM64, 1, 1), (ModM64, 1, 2), (ModThree, 1, 1), (ModM127, 2, 2), (ModLz2, 2, 1), (ModLz5, 4, 4), (ModSmall192, 3, 3), (ModSmall192, 3, 1), (ModBig1024, 16, 16), (ModBig1024, 16, 1));
+    case!(v, "BoxedMontyForm::pow/pow_bounded_exp/PowBoundedExp (1..=4 limb moduli x 1..=4 limb exponents)", boxed_pow);
+    case!(v, "BoxedMontyForm::pow_bounded_exp every k (1..=2 limb exponents)", boxed_pow_bounded_exhaustive);
+    case!(v, "BoxedMontyForm::pow/pow_bounded_exp (5, 8, 17 limb moduli)", boxed_pow_wide);
+    case!(v, "MontyForm<1>::MultiExponentiate(BoundedExp) arrays+slices 1,2,3,5 terms (exponent U64)", multi_exp_1::<1>);
+    case!(v, "MontyForm<1>::MultiExponentiate(BoundedExp) arrays+slices 1,2,3,5 terms (exponent U128)", multi_exp_1::<2>);
+    case!(v, "MontyForm<2>::MultiExponentiate(BoundedExp) arrays+slices 1,2,3,5 terms (exponent U128)", multi_exp_2::<2>);
+    case!(v, "MontyForm<2>::MultiExponentiate(BoundedExp) arrays+slices 1,2,3,5 terms (exponent U64)", multi_exp_2::<1>);
+    case!(v, "MontyForm<4>::MultiExponentiate(BoundedExp) arrays+slices 1,2,3,5 terms (exponent U256)", multi_exp_4::<4>);
+    case!(v, "MontyForm<4>::MultiExponentiate(BoundedExp) arrays+slices 1,2,3,5 terms (exponent U128)", multi_exp_4::<2>);
+    case!(v, "MontyForm<16>::MultiExponentiate(BoundedExp) arrays+slices 1,2,3,5 terms (exponent U1024)", multi_exp_16::<16>);
+    case!(v, "MontyForm<16>::MultiExponentiate(BoundedExp) arrays+slices 1,2,3,5 terms (exponent U64)", multi_exp_16::<1>);
+    case!(v, "ConstMontyForm<ModP256, 4>::MultiExponentiate(BoundedExp) arrays+slices 1,2,3,5 terms (exponent U256)", multi_exp_p256::<4>);
+    case!(v, "ConstMontyForm<ModM64, 1>::MultiExponentiate(BoundedExp) arrays+slices 1,2,3,5 terms (exponent U64)", multi_exp_m64::<1>);
+    case!(v, "ConstMontyForm<ModM127, 2>::MultiExponentiate(BoundedExp) arrays+slices 1,2,3,5 terms (exponent U192)", multi_exp_m127::<3>);
+    case!(v, "ConstMontyForm<ModSmall192, 3>::MultiExponentiate(BoundedExp) arrays+slices 1,2,3,5 terms (exponent U64)", multi_exp_small192::<1>);
+    case!(v, "MontyForm<1>::lincomb_vartime/Monty::lincomb_vartime 1..=40 terms", lincomb_runtime::<1>);
+    case!(v, "MontyForm<2>::lincomb_vartime/Monty::lincomb_vartime 1..=40 terms", lincomb_runtime::<2>);
+    case!(v, "MontyForm<3>::lincomb_vartime/Monty::lincomb_vartime 1..=40 terms", lincomb_runtime::<3>);
+    case!(v, "MontyForm<4>::lincomb_vartime/Monty::lincomb_vartime 1..=40 terms", lincomb_runtime::<4>);
+    case!(v, "MontyForm<8>::lincomb_vartime/Monty::lincomb_vartime 1..=40 terms", lincomb_runtime::<8>);
+    case!(v, "MontyForm<16>::lincomb_vartime/Monty::lincomb_vartime 1..=40 terms", lincomb_runtime::<16>);
+    case!(v, "BoxedMontyForm::lincomb_vartime/Monty::lincomb_vartime 1..=40 terms (1..=4 limbs)", lincomb_boxed);
+    case!(v, "BoxedMontyForm::lincomb_vartime/Monty::lincomb_vartime (5, 8, 17 limbs)", lincomb_boxed_wide);
+    case!(v, "const/runtime/boxed on identical inputs: pow, pow_bounded_exp, lincomb_vartime (ModP256)", three_routes::<ModP256, 4>);
+    case!(v, "const/runtime/boxed on identical inputs: pow, pow_bounded_exp, lincomb_vartime (ModM64)", three_routes::<ModM64, 1>);
+    case!(v, "const/runtime/boxed on identical inputs: pow, pow_bounded_exp, lincomb_vartime (ModThree)", three_routes::<ModThree, 1>);
+    case!(v, "const/runtime/boxed on identical inputs: pow, pow_bounded_exp, lincomb_vartime (ModM127)", three_routes::<ModM127, 2>);
+    case!(v, "const/runtime/boxed on identical inputs: pow, pow_bounded_exp, lincomb_vartime (ModLz2)", three_routes::<ModLz2, 2>);
+    case!(v, "const/runtime/boxed on identical inputs: pow, pow_bounded_exp, lincomb_vartime (ModLz5)", three_routes::<ModLz5, 4>);
+    case!(v, "const/runtime/boxed on identical inputs: pow, pow_bounded_exp, lincomb_vartime (ModSmall192)", three_routes::<ModSmall192, 3>);
+    case!(v, "const/runtime/boxed on identical inputs: pow, pow_bounded_exp, lincomb_vartime (ModBig1024)", three_routes::<ModBig1024, 16>);
+    case!(v, "MontyForm<1> m = 1: pow_bounded_exp", pow_m1::<1>);
+    case!(v, "MontyForm<2> m = 1: pow_bounded_exp", pow_m1::<2>);
+    case!(v, "MontyForm<4> m = 1: pow_bounded_exp", pow_m1::<4>);
+    case!(v, "BoxedMontyForm m = 1: pow_bounded_exp", boxed_pow_m1);
+    v
 }
